@@ -442,6 +442,16 @@ func smbDec(a []string) string {
 	return "ok " + dumpEnv(c, g)
 }
 
+func fieldTokens(c command_interface.CommandInterface, g *gCmd) []string {
+	sv := cmdStruct(c)
+	out := make([]string, len(g.Fields))
+	for i, f := range g.Fields {
+		out[i] = showVal(sv.FieldByName(f.Name))
+	}
+	return out
+}
+
+// marshal, unmarshal into a fresh command, compare fields, marshal again, compare bytes
 func smbRt(a []string) string {
 	loadGenCmds()
 	g := genCmds[a[0]]
@@ -451,12 +461,82 @@ func smbRt(a []string) string {
 	if err != nil {
 		return "err"
 	}
-	after := dumpEnv(c, g)
+	after := fieldTokens(c, g)
 	d := newCmd(a[0])
 	if _, err := d.Unmarshal(b); err != nil {
 		return "err-decode"
 	}
-	return "ok " + after + " " + dumpEnv(d, g)
+	dec := fieldTokens(d, g)
+	fd := "eq"
+	for i := range after {
+		if after[i] != dec[i] {
+			fd = "diff:" + g.Fields[i].Name
+			break
+		}
+	}
+	// re-encode what was decoded (fresh blocks: Marshal appends to the ones Unmarshal filled)
+	e := newCmd(a[0])
+	setEnv(e, dumpEnv(d, g))
+	re := "same"
+	b2, err := e.Marshal()
+	if err != nil {
+		re = "reenc-err"
+	} else if string(b2) != string(b) {
+		re = "reenc-diff"
+	}
+	return "ok " + fd + " " + re
+}
+
+// complement one fixed-width field and report which bytes of the encoding change
+func smbSlot(a []string) string {
+	loadGenCmds()
+	g := genCmds[a[0]]
+	c := newCmd(a[0])
+	setEnv(c, a[1])
+	b1, err := c.Marshal()
+	if err != nil {
+		return "err"
+	}
+	c2 := newCmd(a[0])
+	setEnv(c2, a[1])
+	fv := cmdStruct(c2).FieldByName(a[2])
+	bits := 0
+	for _, f := range g.Fields {
+		if f.Name == a[2] {
+			bits = typeBits(f.Type)
+		}
+	}
+	if bits == 0 {
+		return "bad-field"
+	}
+	mask := ^uint64(0) >> uint(64-bits)
+	if fv.Type().Name() == "LARGE_INTEGER" {
+		q := fv.FieldByName("QuadPart")
+		q.SetUint(^q.Uint())
+	} else {
+		setInt(fv, (^intOf(fv))&mask)
+	}
+	b2, err := c2.Marshal()
+	if err != nil {
+		return "err"
+	}
+	if len(b1) != len(b2) {
+		return "ok length-changed"
+	}
+	lo, hi, n := -1, -1, 0
+	for i := range b1 {
+		if b1[i] != b2[i] {
+			if lo < 0 {
+				lo = i
+			}
+			hi = i
+			n++
+		}
+	}
+	if lo < 0 {
+		return "ok none"
+	}
+	return fmt.Sprintf("ok %d %d %d", lo, hi+1, n)
 }
 
 func smbOps() []OpDef {
@@ -464,6 +544,7 @@ func smbOps() []OpDef {
 		{Name: "smb.enc", Impl: smbEnc},
 		{Name: "smb.dec", Impl: smbDec},
 		{Name: "smb.rt", Impl: smbRt},
+		{Name: "smb.slot", Impl: smbSlot},
 	}
 }
 
